@@ -232,13 +232,39 @@ def mustBeAccepted (obs : Json) (objs : List (String × List (Nat × ClassO))) :
         if parentPublishes && !(accepted rp c.cur) then ["RpTreeValid"] else []
       | _, _ => []
 
+/-- Every CA holds the certificate its parent currently issues to it (the periodic child → parent
+syncs have caught up); the TA level is not looked at. -/
+def certsConsistent (obs : Json) : Bool :=
+  (jfields (jget obs "cas")).all fun (h, ca) =>
+    (jfields (jget ca "resources")).all fun (_, rc) =>
+      let parent := jstr (jget rc "parent_handle")
+      let pca := jpath obs ["cas", parent]
+      if parent == "ta" || jisNull pca then true else
+      let (v, p) := jvariant (jget rc "key_state")
+      let ks : List Json := match v with
+        | "active" => [p]
+        | "roll_new" => jarr p
+        | "roll_pending" => (jarr p).drop 1
+        | "roll_old" => (jarr p).take 1
+        | _ => []
+      -- requests still open: not caught up
+      ks.all fun k =>
+        let kid := jstr (jget k "key_id")
+        let serial := jtok (jpath k ["incoming_cert", "serial"])
+        jisNull (jget k "request") &&
+        (jfields (jget pca "resources")).any fun (_, prc) =>
+          match jpath prc ["certificates", "issued", kid] with
+          | .null => false
+          | c => jtok (jget c "serial") == serial &&
+              jstr (jpath pca ["children", h, "state"]) == "active"
+
 def rpPreds (obs : Json) (objs : List (String × List (Nat × ClassO))) (synced : String → Bool) : List String :=
   let rp := jget obs "rp"
   if jisNull rp then [] else
   -- decoded manifests/CRLs of every CA whose server content is its object set
   let p0 := objs.flatMap fun (h, cls) =>
     if !(synced h) then [] else cls.flatMap fun (_, c) => c.sets.flatMap (rpSetPreds rp)
-  if !((jbool? (jget rp "quiescent")).getD false) then p0 else
+  if !((jbool? (jget rp "quiescent")).getD false) || !(certsConsistent obs) then p0 else
   let probs := (jarr (jget rp "problems")).filter fun p => jstr (jget p "kind") != "unlisted-subdir"
   let (vr, asp, rk) := expectVrps obs objs
   let gotA := (jarr (jget rp "aspas")).map fun a => match jarr a with
